@@ -72,3 +72,170 @@ def op_c20_precision(order, pkind, pparams, skind, sparams, iters):
     v = st.values
     return dict(dtype=str(v.dtype), values=np.asarray(v, dtype=np.float64).tolist(), iteration=int(st.info.iteration),
                 gamma_dtype=str(solver.gamma.dtype), x64=bool(jax.config.jax_enable_x64))
+
+
+# ------------------------------------------------------------------------------------------------
+# checkpoint scenarios (C09-C12): one fresh process per segment
+
+
+def _full_state(solver):
+    """Complete runtime state through the documented solver_state."""
+    st = solver.solver_state
+    d = dict(iteration=int(st.info.iteration), values=np.asarray(st.values, dtype=np.float64).tolist(),
+             values_dtype=str(np.asarray(st.values).dtype),
+             policy=None if st.policy is None else np.asarray(st.policy).tolist())
+    info = st.info
+    if hasattr(info, "gain"):
+        d["gain"] = float(info.gain)
+    if hasattr(info, "value_history"):
+        d["history"] = None if info.value_history is None else np.asarray(info.value_history, dtype=np.float64).tolist()
+        d["history_index"] = int(info.history_index)
+        d["period"] = int(info.period)
+    if hasattr(info, "batch_order"):
+        d["batch_order"] = None if info.batch_order is None else np.asarray(info.batch_order).tolist()
+    return d
+
+
+def _norm_config(c):
+    import dataclasses
+
+    from omegaconf import DictConfig, ListConfig, OmegaConf
+
+    if isinstance(c, (DictConfig, ListConfig)):
+        c = OmegaConf.to_container(c, resolve=True)
+    if dataclasses.is_dataclass(c) and not isinstance(c, type):
+        return {f.name: _norm_config(getattr(c, f.name)) for f in dataclasses.fields(c)}
+    if isinstance(c, dict):
+        return {str(k): _norm_config(v) for k, v in c.items()}
+    if isinstance(c, (list, tuple)):
+        return [_norm_config(v) for v in c]
+    if isinstance(c, bool) or c is None or isinstance(c, str):
+        return c
+    if isinstance(c, (int, float, np.integer, np.floating)):
+        return float(c)
+    return str(c)
+
+
+def _build_problem(pdesc):
+    from vf import sut
+
+    if pdesc["kind"] == "tabular":
+        return sut.make_problem(pdesc["spec"])
+    from vf import shipped
+
+    return shipped.build_sut(pdesc["kind"], pdesc["params"])
+
+
+def _solver_kwargs(sdesc):
+    kw = dict(sdesc["params"])
+    kw.setdefault("verbose", 0)
+    return kw
+
+
+def op_ckpt(scenario):
+    """Build (or restore) a solver, run solve() calls, report states. See vf/checks/c10.py for the scenario format."""
+    import os
+    import signal
+    import time
+
+    import vf.sut  # noqa: F401  (64-bit mode first)
+    from vf.tabular import solver_class
+
+    sc = scenario
+    plog = sc.get("progress_log")
+
+    def log(msg):
+        if plog:
+            fd = os.open(plog, os.O_WRONLY | os.O_APPEND | os.O_CREAT)
+            os.write(fd, (msg + "\n").encode())
+            os.close(fd)
+
+    out = dict(snapshots={}, saves=[], calls=[], error=None)
+    scls = solver_class(sc["solver"]["kind"])
+    rs = sc.get("restore")
+    try:
+        if rs and rs["route"] == "restore":
+            kw = dict(rs.get("overrides") or {})
+            if rs.get("step") is not None:
+                kw["step"] = int(rs["step"])
+            solver = scls.restore(rs["dir"], **kw)
+        else:
+            problem = _build_problem(sc["problem"])
+            solver = scls(problem=problem, **_solver_kwargs(sc["solver"]))
+            if rs and rs["route"] == "load":
+                solver.load_checkpoint(rs["dir"], step=rs.get("step"))
+    except BaseException as e:
+        from vf.runner import sut_bucket
+
+        out["error"] = dict(stage="build-or-restore", etype=type(e).__name__, msg=str(e)[:800], bucket=sut_bucket(e))
+        return out
+    log("built")
+    out["restored"] = _full_state(solver) if rs else None
+    out["config"] = _norm_config(solver.config)
+    out["attrs"] = dict(checkpoint_frequency=int(getattr(solver, "checkpoint_frequency", -1)),
+                        max_checkpoints=int(getattr(solver, "max_checkpoints", -1)),
+                        enable_async_checkpointing=bool(getattr(solver, "enable_async_checkpointing", False)),
+                        checkpoint_dir=str(getattr(solver, "checkpoint_dir", "")) if getattr(solver, "checkpoint_manager", None) is not None else None,
+                        has_manager=getattr(solver, "checkpoint_manager", None) is not None,
+                        problem_has_config=hasattr(solver.problem, "config"))
+    kill = sc.get("kill")
+    counter = dict(j=0)
+    orig_save = solver.save
+
+    def save(step):
+        counter["j"] += 1
+        j = counter["j"]
+        if sc.get("snapshot", True):
+            out["snapshots"][str(int(step))] = _full_state(solver)
+        out["saves"].append(int(step))
+        log(f"save-enter {j} {int(step)}")
+        if kill and kill["family"] == "point" and kill["when"] == "before_save" and kill["j"] == j:
+            os.kill(os.getpid(), signal.SIGKILL)
+        orig_save(step)
+        log(f"save-return {j} {int(step)}")
+        if kill and kill["family"] == "point" and kill["when"] == "after_save" and kill["j"] == j:
+            os.kill(os.getpid(), signal.SIGKILL)
+        if kill and kill["family"] == "delay" and kill["j"] == j:
+            t_end = time.perf_counter() + kill["delay_us"] / 1e6
+            while time.perf_counter() < t_end:
+                pass
+            os.kill(os.getpid(), signal.SIGKILL)
+
+    solver.save = save
+    try:
+        for k in sc.get("calls", []):
+            st = solver.solve(int(k))
+            log(f"solve-return {int(st.info.iteration)}")
+            out["calls"].append(dict(limit=int(k), iteration=int(st.info.iteration)))
+        mgr = getattr(solver, "checkpoint_manager", None)
+        if mgr is not None:
+            mgr.wait_until_finished()
+            log("wait-finished")
+            if kill and kill["family"] == "point" and kill["when"] == "after_wait":
+                os.kill(os.getpid(), signal.SIGKILL)
+    except BaseException as e:
+        from vf.runner import sut_bucket
+
+        out["error"] = dict(stage="solve", etype=type(e).__name__, msg=str(e)[:800], bucket=sut_bucket(e))
+        return out
+    out["final"] = _full_state(solver)
+    out["policy_none"] = solver.policy is None
+    return out
+
+
+def op_ckpt_read_all(problem, solver, dir, steps):
+    """Load every given step of a checkpoint directory into one hand-built solver (load_checkpoint route)."""
+    import vf.sut  # noqa: F401
+    from vf.runner import sut_bucket
+    from vf.tabular import solver_class
+
+    prob = _build_problem(problem)
+    s = solver_class(solver["kind"])(problem=prob, **_solver_kwargs(solver))
+    out = {}
+    for step in steps:
+        try:
+            s.load_checkpoint(dir, step=int(step))
+            out[str(int(step))] = _full_state(s)
+        except BaseException as e:
+            out[str(int(step))] = dict(error=repr(e)[:600], bucket=sut_bucket(e))
+    return out
